@@ -13,11 +13,16 @@ The observation is the one the driver computes, except that values are normalise
 of `canon ∘ dropCaps` (`canon`, Driver/Parse.lean, additionally sorts map entries and is a `partial def`:
 nothing can be proved about it). `copy_correct_norm` isolates what `canon` would have to satisfy.
 
-The model of the current tree is rejected on the six known classes (`repo_not_correct_*`).
+The model of the tree at the pinned commit (`GenCfg.original`) is rejected on the six known classes
+(`repo_not_correct_*`). `section CurrentTree`: since the `fix:` commits `GenCfg.repo` has every switch Copy / CopyTo
+(and the DeepEqual run of the observation) read off (Proofs/CopyCurrent.lean), so every theorem holds of the emitter
+as it stands: `copyN_current`, `accepts_of_copyN_current`, `copy_norm_current`, `copy_current`,
+`copyTo_norm_current`, `copyTo_current`, `copy_refusal_current`, `copyTo_refusal_current`.
 -/
 import InspectorModel.Proofs.CopyDeq
 import InspectorModel.Proofs.CopyDropCaps
 import InspectorModel.Spec.CopyObs
+import InspectorModel.Proofs.CopyCurrent
 set_option linter.unusedSimpArgs false
 set_option linter.unusedVariables false
 namespace Inspector.C06
@@ -144,8 +149,8 @@ example : NodeWF exNode = true ∧ WT exNode exVal = true ∧ KeysOK false exNod
 /-- The repaired model's copy of `exVal` is accepted; -/
 example : cpAccepts exNode exVal none (copyObsOfWith dropCaps GenCfg.fixed exNode exVal (copyM GenCfg.fixed exNode .ptr exVal)) = true := by
   decide
-/-- … the current tree's is not (several classes at once here: the isolated witnesses follow). -/
-example : cpAccepts exNode exVal none (copyObsOfWith dropCaps GenCfg.repo exNode exVal (copyM GenCfg.repo exNode .ptr exVal)) = false := by
+/-- … the tree's at the pinned commit is not (several classes at once here: the isolated witnesses follow). -/
+example : cpAccepts exNode exVal none (copyObsOfWith dropCaps GenCfg.original exNode exVal (copyM GenCfg.original exNode .ptr exVal)) = false := by
   decide
 
 /-- CopyTo into the "empty" destination `exDst` (stale scalar, string-less, `old` bytes) is accepted as well. -/
@@ -172,43 +177,138 @@ example : WT ptrKeyN (.map false [.nilptr, .nilptr] [.int 5, .int 6]) = true ∧
 
 /-- `copy-root-slice-lost`: `type L []int`; Copy of `L{1}` returns an empty slice. -/
 theorem repo_not_correct_root_slice_lost :
-    accepted GenCfg.repo (.slice { typn := "L" } intN) (.slice false [.int 1] 1) = false ∧
-    accepted { GenCfg.repo with copyRootSliceLost := false } (.slice { typn := "L" } intN) (.slice false [.int 1] 1) = true := by
+    accepted GenCfg.original (.slice { typn := "L" } intN) (.slice false [.int 1] 1) = false ∧
+    accepted { GenCfg.original with copyRootSliceLost := false } (.slice { typn := "L" } intN) (.slice false [.int 1] 1) = true := by
   decide
 
 /-- `copy-root-map-panics`: `type M map[string]int`; Copy of a non-empty `M` stores into a nil map. -/
 theorem repo_not_correct_root_map_panics :
-    accepted GenCfg.repo (.map { typn := "M" } strN intN) (.map false [.str (strBytes "a")] [.int 1]) = false ∧
-    accepted { GenCfg.repo with copyRootMapPanics := false } (.map { typn := "M" } strN intN) (.map false [.str (strBytes "a")] [.int 1]) = true := by
+    accepted GenCfg.original (.map { typn := "M" } strN intN) (.map false [.str (strBytes "a")] [.int 1]) = false ∧
+    accepted { GenCfg.original with copyRootMapPanics := false } (.map { typn := "M" } strN intN) (.map false [.str (strBytes "a")] [.int 1]) = true := by
   decide
 
 /-- `copy-ptr-shared`: `struct { P *int }`; the copy's `P` is the source's pointer. -/
 theorem repo_not_correct_ptr_shared :
-    accepted GenCfg.repo (.struct { typn := "T" } [intN "P" true]) (.struct [.ptr (.int 1)]) = false ∧
-    accepted { GenCfg.repo with copyPtrShared := false } (.struct { typn := "T" } [intN "P" true]) (.struct [.ptr (.int 1)]) = true := by
+    accepted GenCfg.original (.struct { typn := "T" } [intN "P" true]) (.struct [.ptr (.int 1)]) = false ∧
+    accepted { GenCfg.original with copyPtrShared := false } (.struct { typn := "T" } [intN "P" true]) (.struct [.ptr (.int 1)]) = true := by
   decide
 
 /-- `copy-nil-elem-panics`: `struct { L []*Inner }` with a nil element. -/
 theorem repo_not_correct_nil_elem_panics :
-    accepted GenCfg.repo (.struct { typn := "T" } [.slice { typn := "[]*Inner", name := "L" } (innerN "" true)])
+    accepted GenCfg.original (.struct { typn := "T" } [.slice { typn := "[]*Inner", name := "L" } (innerN "" true)])
       (.struct [.slice false [.nilptr] 1]) = false ∧
-    accepted { GenCfg.repo with copyNilElemPanics := false } (.struct { typn := "T" } [.slice { typn := "[]*Inner", name := "L" } (innerN "" true)])
+    accepted { GenCfg.original with copyNilElemPanics := false } (.struct { typn := "T" } [.slice { typn := "[]*Inner", name := "L" } (innerN "" true)])
       (.struct [.slice false [.nilptr] 1]) = true := by
   decide
 
 /-- `copy-nil-dest-panics`: `struct { S *string }` with `S` set: written through the copy's nil `S`. -/
 theorem repo_not_correct_nil_dest_panics :
-    accepted GenCfg.repo (.struct { typn := "T" } [strN "S" true]) (.struct [.ptr (.str (strBytes "a"))]) = false ∧
-    accepted { GenCfg.repo with copyNilDestPanics := false } (.struct { typn := "T" } [strN "S" true]) (.struct [.ptr (.str (strBytes "a"))]) = true := by
+    accepted GenCfg.original (.struct { typn := "T" } [strN "S" true]) (.struct [.ptr (.str (strBytes "a"))]) = false ∧
+    accepted { GenCfg.original with copyNilDestPanics := false } (.struct { typn := "T" } [strN "S" true]) (.struct [.ptr (.str (strBytes "a"))]) = true := by
   decide
 
 /-- `copy-empty-ptr-coll-dropped`: `struct { Q *map[string]int }` with `Q` pointing to an empty map: the copy's `Q` is nil. -/
 theorem repo_not_correct_empty_ptr_coll_dropped :
-    accepted GenCfg.repo (.struct { typn := "T" } [.map { typn := "map[string]int", name := "Q", ptr := true } strN intN])
+    accepted GenCfg.original (.struct { typn := "T" } [.map { typn := "map[string]int", name := "Q", ptr := true } strN intN])
       (.struct [.ptr (.map false [] [])]) = false ∧
-    accepted { GenCfg.repo with copyEmptyPtrCollDropped := false } (.struct { typn := "T" } [.map { typn := "map[string]int", name := "Q", ptr := true } strN intN])
+    accepted { GenCfg.original with copyEmptyPtrCollDropped := false } (.struct { typn := "T" } [.map { typn := "map[string]int", name := "Q", ptr := true } strN intN])
       (.struct [.ptr (.map false [] [])]) = true := by
   decide
 end NonVacuity
+
+/-! ### The tree as it is now
+
+After the six generator `fix:` commits that concern Copy (root slice lost, root map into nil map, shared
+pointer targets, nil pointer elements, nil destination pointers, pointers to empty collections) and the
+typed-nil-root fix, no switch that `copyN` / `copyM` / `copyToM` consult is left on in `GenCfg.repo`, nor one the
+observation `copyObsOfWith` consults (`copyPtrShared` and the DeepEqual switches): the model of the current tree
+*is* the repaired model, for every argument form. -/
+section CurrentTree
+open Inspector.CopyCurrent
+
+theorem copyN_repo (n : Node) (d0 : Bool) (l r : Val) : copyN GenCfg.repo n d0 l r = copyN GenCfg.fixed n d0 l r :=
+  CopyCurrent.copyN_repo n d0 l r
+
+theorem copyM_repo (n : Node) (f : Form) (r : Val) : copyM GenCfg.repo n f r = copyM GenCfg.fixed n f r :=
+  CopyCurrent.copyM_repo n f r
+
+theorem copyToM_repo (n : Node) (fs fd : Form) (r l : Val) :
+    copyToM GenCfg.repo n fs fd r l = copyToM GenCfg.fixed n fs fd r l :=
+  CopyCurrent.copyToM_repo n fs fd r l
+
+theorem copyObsOfWith_repo (norm : Val → Val) (n : Node) (src : Val) (o : CopyOut) :
+    copyObsOfWith norm GenCfg.repo n src o = copyObsOfWith norm GenCfg.fixed n src o :=
+  CopyCurrent.copyObsOfWith_repo norm n src o
+
+/-- The emitted copy code at any node (root or not), emitter as it stands. -/
+theorem copyN_current (n : Node) (d0 : Bool) (l r : Val) (hwf : NodeWF n = true) (hwr : WT n r = true)
+    (hwl : WT n l = true) (hd : dstOK false l = true) (hk : KeysOK false n r = true) :
+    ∃ v, copyN GenCfg.repo n d0 l r = .ok v 0 ∧ WT n v = true ∧
+      (eqS {} n "" r v != .mustNot) = true ∧
+      (hasPtrKeyMap n = false → eqS {} n "" r v = .must ∧
+        deqM { cfg := GenCfg.repo, ident := false } n .ptr .ptr r v = .t) := by
+  rw [copyN_repo]
+  obtain ⟨v, h1, h2, h3, h4⟩ := copyN_correct n d0 l r hwf hwr hwl hd hk
+  refine ⟨v, h1, h2, h3, fun hp => ?_⟩
+  rw [DEQCurrent.deqM_repo_mk]
+  exact h4 hp
+
+/-- Acceptance of the observation of a successful copy, emitter as it stands. -/
+theorem accepts_of_copyN_current (norm : Val → Val) (n : Node) (d0 : Bool) (l r : Val) (hwf : NodeWF n = true)
+    (hwr : WT n r = true) (hwl : WT n l = true) (hd : dstOK false l = true) (hk : KeysOK false n r = true)
+    (hnorm : ∀ v, WT n v = true → eqS {} n "" r (norm v) = eqS {} n "" r v) :
+    ∃ v, copyN GenCfg.repo n d0 l r = .ok v 0 ∧
+      cpAccepts n r none (copyObsOfWith norm GenCfg.repo n r (.ok v 0)) = true := by
+  rw [copyN_repo]
+  obtain ⟨v, h1, h2⟩ := accepts_of_copyN norm n d0 l r hwf hwr hwl hd hk hnorm
+  exact ⟨v, h1, by rw [copyObsOfWith_repo]; exact h2⟩
+
+/-- C06, Copy, emitter as it stands, with the normalisation left open. -/
+theorem copy_norm_current (norm : Val → Val) (n : Node) (v : Val) (f : Form) (hwf : NodeWF n = true)
+    (hwt : WT n v = true) (hk : KeysOK false n v = true)
+    (hnorm : ∀ c, WT n c = true → eqS {} n "" v (norm c) = eqS {} n "" v c) :
+    (copyNilRoot f || cpAccepts n v (copyRefusal f) (copyObsOfWith norm GenCfg.repo n v (copyM GenCfg.repo n f v))) = true := by
+  rw [copyM_repo, copyObsOfWith_repo]; exact copy_correct_norm norm n v f hwf hwt hk hnorm
+
+/-- C06 for Copy, emitter as it stands: the driver's acceptance of the model's outcome, for every argument form. -/
+theorem copy_current (n : Node) (v : Val) (f : Form) (hwf : NodeWF n = true) (hwt : WT n v = true)
+    (hk : KeysOK false n v = true) :
+    (copyNilRoot f || cpAccepts n v (copyRefusal f) (copyObsOfWith dropCaps GenCfg.repo n v (copyM GenCfg.repo n f v))) = true := by
+  rw [copyM_repo, copyObsOfWith_repo]; exact copy_correct n v f hwf hwt hk
+
+theorem copyTo_norm_current (norm : Val → Val) (n : Node) (src dst : Val) (fs fd : Form) (hwf : NodeWF n = true)
+    (hws : WT n src = true) (hwd : WT n dst = true) (hd : dstOK false dst = true) (hk : KeysOK false n src = true)
+    (hnorm : ∀ c, WT n c = true → eqS {} n "" src (norm c) = eqS {} n "" src c) :
+    (copyToNilRoot fs fd || cpAccepts n src (copyToRefusal fs fd)
+      (copyObsOfWith norm GenCfg.repo n src (copyToM GenCfg.repo n fs fd src dst))) = true := by
+  rw [copyToM_repo, copyObsOfWith_repo]; exact copyTo_correct_norm norm n src dst fs fd hwf hws hwd hd hk hnorm
+
+/-- C06 for CopyTo into an empty destination, emitter as it stands, every pair of argument forms. -/
+theorem copyTo_current (n : Node) (src dst : Val) (fs fd : Form) (hwf : NodeWF n = true)
+    (hws : WT n src = true) (hwd : WT n dst = true) (hd : dstOK false dst = true) (hk : KeysOK false n src = true) :
+    (copyToNilRoot fs fd || cpAccepts n src (copyToRefusal fs fd)
+      (copyObsOfWith dropCaps GenCfg.repo n src (copyToM GenCfg.repo n fs fd src dst))) = true := by
+  rw [copyToM_repo, copyObsOfWith_repo]; exact copyTo_correct n src dst fs fd hwf hws hwd hd hk
+
+/-- Refused argument forms, emitter as it stands. -/
+theorem copy_refusal_current (norm : Val → Val) (n : Node) (v : Val) (f : Form) (t : String) (hr : copyRefusal f = some t) :
+    cpAccepts n v (copyRefusal f) (copyObsOfWith norm GenCfg.repo n v (copyM GenCfg.repo n f v)) = true := by
+  rw [copyM_repo, copyObsOfWith_repo]; exact copy_refusal_correct norm n v f t hr
+
+theorem copyTo_refusal_current (norm : Val → Val) (n : Node) (src dst : Val) (fs fd : Form) (t : String)
+    (hr : copyToRefusal fs fd = some t) :
+    (copyToNilRoot fs fd || cpAccepts n src (copyToRefusal fs fd)
+      (copyObsOfWith norm GenCfg.repo n src (copyToM GenCfg.repo n fs fd src dst))) = true := by
+  rw [copyToM_repo, copyObsOfWith_repo]; exact copyTo_refusal_correct norm n src dst fs fd t hr
+
+/-- The witnesses on which the tree at the pinned commit was rejected are accepted now. -/
+example : accepted GenCfg.repo exNode exVal = true ∧
+    accepted GenCfg.repo (.slice { typn := "L" } intN) (.slice false [.int 1] 1) = true ∧
+    accepted GenCfg.repo (.map { typn := "M" } strN intN) (.map false [.str (strBytes "a")] [.int 1]) = true ∧
+    accepted GenCfg.repo (.struct { typn := "T" } [intN "P" true]) (.struct [.ptr (.int 1)]) = true ∧
+    accepted GenCfg.repo (.struct { typn := "T" } [strN "S" true]) (.struct [.ptr (.str (strBytes "a"))]) = true := by
+  decide
+
+end CurrentTree
 
 end Inspector.C06
